@@ -372,6 +372,9 @@ func checkC16(w *World, r *Report) {
 		}
 	})
 
+	r.Rule("R16.12", "a value lies in a multi-part range iff some part holds it: integer, uinteger and decimal64 Validate ask every part of the effective range in turn and stop only at one that accepts", 3)
+	r.guard("R16.12", func() { partsScan(w, r, "R16.12") })
+
 	r.Rule("R16.6", "a rejection carries the path and the custom message/app-tag: every error constructor called by a Validate method receives the path parameter, and the numeric types prefer the configured message", 6)
 	r.guard("R16.6", func() {
 		for _, typ := range []string{"boolean", "decimal64", "enumeration", "integer", "uinteger", "union", "identityref"} {
@@ -639,4 +642,110 @@ func emptyValidateTable(w *World) (accept, located string, pos token.Pos) {
 	accept = pcCompare(nilCond, classify, func(env map[string]bool) bool { return env["empty"] })
 	located = pcCompare(locCond, classify, func(env map[string]bool) bool { return !env["empty"] && env["long"] })
 	return accept, located, f.Pos()
+}
+
+// partsScan (R13.11 / R16.12): a value lies in a multi-part range iff some
+// part holds it.  The type's Validate consults the parts one after the other:
+// a loop over the receiver's parts that asks part.Validate(value) on every
+// iteration and is left early only when that answer is nil — or the same scan
+// handed to slices.ContainsFunc.  (A search that looks at one part only —
+// binary search on an end point, the first part, the last — rejects values
+// that another part holds.)
+func partsScan(w *World, r *Report, rule string) {
+	for _, c := range []struct{ typ, field string }{{"integer", "rbs"}, {"uinteger", "rbs"}, {"decimal64", "rbs"}} {
+		m := w.Method("schema", c.typ, "Validate")
+		f := w.SSAFunc(m)
+		if f == nil {
+			panic(undecided{"schema." + c.typ + ".Validate"})
+		}
+		what := c.typ + ".Validate tries every part of the range"
+		isPartValidate := func(v ssa.Value) bool {
+			call, ok := v.(*ssa.Call)
+			return ok && call.Call.StaticCallee() != nil && nm(call.Call.StaticCallee()) == "Validate" && call.Call.StaticCallee() != f && call.Call.StaticCallee().Signature.Params().Len() == 1
+		}
+		sym := NewSym(w)
+		sym.Expand = false // the part's own verdict is the atom
+		why := "no scan of the parts found"
+		// the method itself, or a helper of the package it hands the value to
+		top := f
+		for _, f := range bodiesDeep(top, 2) {
+			if f.Pkg != top.Pkg && f.Pkg != nil {
+				continue
+			}
+			// the library form
+			for _, b := range f.Blocks {
+				for _, in := range b.Instrs {
+					call, ok := in.(*ssa.Call)
+					if !ok {
+						continue
+					}
+					list, test := containsFuncCall(call)
+					if test == nil || loadedFieldName(list) != c.field {
+						continue
+					}
+					has := false
+					msg := pcCompare(sym.ResultCond(test, nil), func(a *pcAtom) string {
+						if a.op == token.EQL && a.x != nil && a.y != nil && ((isNilConst(a.x) && isPartValidate(a.y)) || (isNilConst(a.y) && isPartValidate(a.x))) {
+							has = true
+							return "accepts"
+						}
+						return ""
+					}, func(env map[string]bool) bool { return env["accepts"] })
+					if has && msg == "" {
+						why = ""
+					} else {
+						why = "the test handed to the scan is not `this part accepts the value`"
+					}
+				}
+			}
+			for _, l := range ssaLoops(f) {
+				body := l.body()
+				over := false
+				for b := range body {
+					for _, in := range b.Instrs {
+						if ia, ok := in.(*ssa.IndexAddr); ok && isRangeIndex(ia.Index) && loadedFieldName(ia.X) == c.field {
+							over = true
+						}
+					}
+				}
+				if !over {
+					continue
+				}
+				var asked *ssa.Call
+				found, every, _ := everyIterationCalls(f, func(ci ssa.CallInstruction) bool {
+					call, ok := ci.(*ssa.Call)
+					if ok && body[call.Block()] && isPartValidate(call) {
+						asked = call
+						return true
+					}
+					return false
+				})
+				if !found || !every || asked == nil {
+					why = "the loop over the parts does not ask each part"
+					continue
+				}
+				why = ""
+				// left early only on acceptance
+				for b := range body {
+					for _, sc := range b.Succs {
+						if body[sc] || b == l.Header {
+							continue
+						}
+						has := false
+						msg := pcImplies(pcAndF(sym.PathCond(l.Header, b, nil), sym.edgeCond(b, sc, nil)), func(a *pcAtom) string {
+							if a.op == token.EQL && a.x != nil && a.y != nil && ((isNilConst(a.x) && a.y == ssa.Value(asked)) || (isNilConst(a.y) && a.x == ssa.Value(asked))) {
+								has = true
+								return "accepts"
+							}
+							return ""
+						}, func(env map[string]bool) bool { return env["accepts"] })
+						if !has || msg != "" {
+							why = "the scan is left before a part has accepted the value"
+						}
+					}
+				}
+			}
+		}
+		r.Check(why == "", rule, what, f.Pos(), "accepted iff some part accepts", why+": a value that a later (or earlier) part of `a..b | c..d` holds is rejected — and a default with such a value fails the compile")
+	}
 }
